@@ -43,8 +43,30 @@ def conc(chk):
                        "replay": "harness family conc04 with VERIF_SEED=%d; the case's seed field reproduces the IDs, the schedule is the Go scheduler's" % chk.seed})
 
 
+def c13_obligation(chk):
+    """The concurrent clause rests on mutual exclusion per ID (C13): its theorems
+    and the source pins over the regenerated Gen/MutexTbl.v / Gen/MutexTime.v must
+    still check for the current mutexes.go (proof stage only; the lock manager's
+    own correspondence runs belong to ./check C13)."""
+    from checks import mutex_common
+    tmod, tnames = mutex_common.THEOREMS_T["C13"]
+    ok, log_, _ = vlib.coq_build(["Properties/C13", "Properties/" + tmod])
+    good = ok
+    for mod, names in (("C13", ["C13", "C13_source_pinned"]), (tmod, ["C13T_mutual_exclusion", "C13T_source_pinned", "C13T_time_uses_pinned"])):
+        res = vlib.print_assumptions("Properties." + mod, names)[0] if ok else None
+        for n in names:
+            closed = bool(res) and res.get(n) == "Closed under the global context"
+            chk.oblige("%s (Properties/%s.v): mutual exclusion per ID, on which the reduction of concurrent requests to serial ones rests, still checks for the current mutexes.go" % (n, mod), closed)
+            good = good and closed
+    if not good:
+        chk.violation({"property": "C04", "no_longer_checks": "Properties/C13.v / C13T.v (theorems or the source pins over Gen/MutexTbl.v, Gen/MutexTime.v): the per-ID lock manager is no longer the one mutual exclusion was proved for, so K concurrent requests on one due ID are no longer shown to run one after the other; ./check C13 searches the lock manager itself for a failing schedule",
+                       "log": log_[-1500:]}, no_input=True)
+    return good
+
+
 def run(chk):
     hist_common.idlock_obligation(chk, "C04")
+    c13_obligation(chk)
     conc(chk)
     return hist_common.run_property(chk, "C04", note="the concurrent clause is checked on real goroutines under the Go scheduler inside a synctest bubble (sampled schedules), and rests on C13 (mutual exclusion per ID) for the general claim")
 
